@@ -62,9 +62,12 @@ OutMatch(mr, real, actorRcpt) ==
 (* [rid, crc, to] of every message of the batch; a final "streams" record     *)
 (* lists what the long poll(s) of every session delivered.                    *)
 (* StreamIsEntitledReplies: the stream of a live session is exactly the       *)
-(* sequence of messages addressed to it while it existed (in order, once,     *)
-(* across cancelled and resumed polls); the stream of an ended session is a   *)
-(* prefix of that (the handler may stop as soon as the session is gone).      *)
+(* sequence of messages addressed to it (in order, once, across cancelled and  *)
+(* resumed polls); the stream of an ended session is a prefix of that (the     *)
+(* handler stops when it notices that the session is gone; that no message is  *)
+(* ADDRESSED to an ended client is RecipientsEntitled/EndedSessionGone on the  *)
+(* same records - only the id of an ended services link may linger in          *)
+(* recipient sets, serverSessions never shrinks).                              *)
 (* ------------------------------------------------------------------------ *)
 ExistsIn(pj, s) == \E q \in DOMAIN pj.ss : pj.ss[q].id = s /\ pj.ss[q].rid = 0
 AddressedTo(rec, s) == LET sel == SelectSeq(rec.rawout, LAMBDA m : s \in ToSet(m.to))
@@ -72,7 +75,7 @@ AddressedTo(rec, s) == LET sel == SelectSeq(rec.rawout, LAMBDA m : s \in ToSet(m
 RECURSIVE WantStream(_, _, _, _)
 WantStream(j, i, h, s) ==
   IF j >= i THEN <<>>
-  ELSE (IF Trace[j].k = "step" /\ Trace[j].h = h /\ ExistsIn(Trace[j - 1].post, s) THEN AddressedTo(Trace[j], s) ELSE <<>>)
+  ELSE (IF Trace[j].k = "step" /\ Trace[j].h = h THEN AddressedTo(Trace[j], s) ELSE <<>>)
        \o WantStream(j + 1, i, h, s)
 HistStart(i, h) == CHOOSE j \in 1..i : Trace[j].k = "reset" /\ Trace[j].h = h
 IsPfx(a, b) == Len(a) <= Len(b) /\ SubSeq(b, 1, Len(a)) = a
